@@ -2,10 +2,10 @@ from propdefs.common import *
 
 PROP = {
     "bin": "c02",
-    "coq_targets": ["theories/Isa/C02Check", "theories/Isa/MipsProofs", "theories/Isa/MipsRefuted"],
+    "coq_targets": ["theories/Isa/C02Check", "theories/Isa/MipsAll", "theories/Isa/MipsRefuted", "theories/Isa/PpcProofs"],
     "n": {"quick": 2400, "thorough": 60000},
     "theorems": ["mips_plain_forms_correct", "mips_single_block_correct", "mips_control_correct", "mips_branch_block_correct",
-                 "mips_fields_okb_ok", "mips_branch_okb_ok",
+                 "mips_fields_okb_ok", "mips_branch_okb_ok", "mips_nodup_temps_distinct", "ppc_forms_correct", "ppc_fields_okb_ok",
                  "mips_jr_target_read_after_slot_refuted", "mips_unaligned_lw_refuted"],
     "tie_name": "mirror_block (decoded words) = IL dumped by translator::mips::{Mips,Mipsel}::translate_block",
     "rule": "case i: i mod 4 = 3 is a PowerPC case, the others MIPS. MIPS case = form (k mod #forms) x variant (k div #forms): the variant picks "
@@ -20,18 +20,18 @@ PROP = {
     "assumptions": ["lift address a with 0 <= a and a + 8 < 2^32; branch targets inside [0, 2^32)",
                     "sc on the LLbit = 1 path", "PPC: Rc = 0 and OE = 0 encodings; every crN-so equals XER[SO] in sampled states (the IL has no XER[SO])"],
     "partial": [
-        "MIPS theorem + syntactic tie [U]: add addu sub subu and or xor nor slt sltu movn movz mul sll srl sra sllv srlv srav addi addiu slti sltiu andi ori xori "
-        "lui mfhi mflo mthi mtlo teq break syscall sync pref (aliases move negu nop); j jal jr jalr beq bne blez bgtz bltz bgez bltzal bgezal x every such slot form",
-        "MIPS spec + mirror (syntactic tie) + sampled comparison, no theorem [D]: mult multu madd maddu msub msubu div divu clz clo lb lbu lh lhu lw ll lwl lwr sb sh sw sc swl swr",
-        "MIPS sampled only: rdhwr (UNPREDICTABLE in the spec: nothing compared)",
-        "jr/jalr theorem assumes the slot leaves the target register unchanged (complement = known finding kf:mips-jr-jalr-target-read-after-slot)",
-        "PowerPC: spec + sampled comparison only [D]; no mirror, no theorem",
-        "accepted encodings with non-canonical reserved fields are listed (extra.mips_sweep_accepted) but not judged",
+        "MIPS theorem + syntactic tie [U]: all 60 non-control forms the lifter handles except rdhwr (ALU, shifts, immediates, lui, clz/clo, mult/div/madd/msub with HI/LO, "
+        "mfhi/mflo/mthi/mtlo, lb lbu lh lhu lw ll lwl lwr sb sh sw sc swl swr in both endiannesses, teq break syscall sync pref) and all 12 branch/jump forms x every such slot form",
+        "MIPS side conditions: memory forms for mapped and naturally aligned accesses (complement = kf:mips-unaligned-access-no-address-error); jr/jalr for slots that leave the target "
+        "register unchanged (complement = kf:mips-jr-jalr-target-read-after-slot); div/divu by zero: HI/LO UNPREDICTABLE, not compared; sc on the LLbit = 1 path; rdhwr sampled only (UNPREDICTABLE)",
+        "PowerPC theorem + syntactic tie [U]: add subf addze addi/li addis/lis cmpwi cmplwi lbz lwz lwzu stw stwu mr nop rlwinm/slwi srawi mtlr mtctr mflr b bl blr bctr; stmw: mirror + tie + sampled only",
+        "PowerPC forms capstone decodes but the lifter rejects are not judged: every bc / conditional bclr, cmpwi/cmplwi cr0, or, ori, mfctr, RA = 0 memory forms (so the suspected bclr-CTR defect is neither confirmed nor refuted)",
+        "accepted encodings with non-canonical reserved fields are listed (extra.mips_sweep_accepted) but not judged; PPC Rc = 1 / OE = 1 encodings are outside the specification",
     ],
-    "level_text": "MIPS: unbounded Coq theorems (all register/immediate fields, all states, all embeddings) that a Gallina mirror of the semantics builders and of the "
-                  "delay-slot sequencing produces IL whose reference-semantics run equals a manual-derived ISA specification, for 39 non-control forms and all 12 branch/jump "
-                  "forms with every such delay-slot form; on every run the mirror is compared syntactically with the IL the real lifter emits for each enumerated encoding, "
-                  "and the emitted IL is executed in the kernel against the specification on sampled states. The remaining 24 accepted MIPS forms and all PowerPC forms: "
-                  "sampled in-kernel comparison only.",
-    "level_note": "Trusted: Coq kernel + vm_compute; the two ISA specifications; Exec/Sem.v; capstone; the harness printer. Not proved: multiply/divide/HI-LO, clz/clo, loads/stores, PowerPC.",
+    "level_text": "Unbounded Coq theorems (all register/immediate fields, all lift addresses, all well-formed machine states, all IL states embedding them) that Gallina mirrors of the "
+                  "MIPS and PowerPC semantics builders, of the MIPS delay-slot sequencing and of merge_successors produce IL whose reference-semantics run equals a manual-derived ISA "
+                  "specification: every MIPS form the lifter handles except rdhwr (60 non-control forms, 12 branch/jump forms with every delay-slot form) and every PowerPC form it accepts "
+                  "except stmw. On every run each mirror is compared syntactically with the IL the real lifter emits for each enumerated encoding (which transfers the theorems to that "
+                  "encoding for all states), and the emitted IL is executed in the kernel against the specification on sampled states.",
+    "level_note": "Trusted: Coq kernel + vm_compute; the two ISA specifications; Exec/Sem.v; capstone; the harness printer. No theorem: PPC stmw, MIPS rdhwr.",
 }
